@@ -148,6 +148,11 @@ def run(ctx):
     shapes.append(("generic-tri", [[0, 0, 0], [3, 1, 0], [1, 2, 2], [4, 3, 1]], [[0, 1, 2], [1, 3, 2]], [], []))
     P, F = c09._grid_surface(3, 3, 1, 1, False)
     shapes.append(("P-quad", P, F, [], []))
+    # sheared lattices: obtuse triangles (negative cotangents), still exactly rational
+    P, F = c09._grid_surface(3, 3, 1, 1, True)
+    shapes.append(("P-sheared", [[x + 2 * y, y, 0] for x, y, _ in P], F, [], []))
+    P, F = c09._grid_surface(3, 4, 2, 1, True)
+    shapes.append(("P-sheared", [[x - 3 * y, y, 0] for x, y, _ in P], F, [], []))
     for dims in ((1, 1, 1), (2, 1, 1)):
         Pk, Ck = c03.kuhn(rng, *dims)
         shapes.append(("K", Pk, [], Ck, []))
